@@ -16,7 +16,10 @@ PROGRAMS = [
     's = "tab\\there" "\\u2028" \'\\N{BULLET}\'\nt = r"raw\\n"\n',
     'class A:\n    x = "\u00ff\u00fe"\n    def m(self):\n        return "\U0001f600"\n',
 ]
-SHEBANGS = [None, '#!/usr/bin/env python', '#!/bin/sh -x', '#! /usr/bin/python3 -u', '#!', '#!/opt/\u00e9t\u00e9/python', '#!x#!y']
+SHEBANGS = [None, '#!/usr/bin/env python', '#!/bin/sh -x', '#! /usr/bin/python3 -u', '#!', '#!/opt/\u00e9t\u00e9/python', '#!x#!y',
+            # characters that str.splitlines() treats as line boundaries but the tokenizer does not; tabs; a cookie-shaped comment on the shebang line
+            '#!/usr/bin/env\x0cpython', '#!/usr/bin/py\x0bthon -u', '#!/usr/bin/python\x1c-x', '#!/opt/py\x85thon', '#!/usr/bin/env python\u2028-O', '#!/usr/bin/env python\u2029', '#!/usr/bin/env\tpython\t',
+            '#!/usr/bin/python # -*- coding: latin-1 -*-']
 NEWLINES = ['\n', '\r\n', '\r']
 ENCODINGS = [('utf-8', None), ('utf-8-sig', None), ('latin-1', 'latin-1'), ('cp1252', 'cp1252'), ('utf-8', 'utf-8'), ('iso-8859-15', 'iso-8859-15')]
 
@@ -55,6 +58,11 @@ def oracle(res, tier, r):
                 continue
             if kind == 'text' and cookie and cookie.lower() not in ('utf-8',):
                 continue      # a str source with a non-utf8 cookie is not a faithful rendering of anything
+            # what the source denotes: for bytes, what the interpreter reads from them (BOM / cookie, also a cookie-shaped comment on the #! line)
+            try:
+                ref = astcmp.dump(ast.parse(src))
+            except (SyntaxError, ValueError):
+                continue
             for preserve in (True, False):
                 n += 1
                 hist['%s/%s/%s/%s' % (kind, enc, repr(nl), 'shebang' if sb else 'none')] += 1
@@ -85,18 +93,21 @@ def oracle(res, tier, r):
                     res.add_violation('c16-shebang-not-dropped', 'shebang present although preserve_shebang is off', dict(sig_base, output=out))
                     continue
                 try:
+                    # "the minified result, encoded as UTF-8": parsed from BYTES, as the interpreter would read the file (BOM / cookie honoured)
+                    got = astcmp.dump(ast.parse(out.encode('utf-8')))
+                except UnicodeEncodeError:
                     got = astcmp.dump(ast.parse(out))
                 except SyntaxError as e:
                     res.add_violation('c16-output-unparseable', 'output does not parse: %r' % e, dict(sig_base, output=out))
                     continue
                 if got != ref:
-                    res.add_violation('c16-program-differs', 'minified output denotes a different program (constants/structure) than the source', dict(sig_base, output=out))
+                    res.add_violation('c16-shebang-line-carries-coding-cookie' if (preserve and sb and re.search(r'coding[:=]\s*([-\w.]+)', sb)) else 'c16-program-differs', 'minified output denotes a different program (constants/structure) than the source', dict(sig_base, output=out))
                     continue
                 try:
                     out.encode('utf-8')
                 except UnicodeEncodeError as e:
                     res.add_violation('c16-not-utf8-encodable', 'result cannot be encoded as UTF-8: %r' % e, dict(sig_base, output=out))
-        if data is not None and enc == 'utf-8' and not cookie:
+        if data is not None and enc == 'utf-8' and not cookie and not (sb and 'coding' in sb):
             for preserve in (True, False):
                 try:
                     a = python_minifier.minify(text, preserve_shebang=preserve)
@@ -112,7 +123,7 @@ def oracle(res, tier, r):
 def correspondence(res, tier, r):
     """Model find_shebang_text / find_shebang_bytes (regexes regenerated from the source) vs the real _find_shebang"""
     import python_minifier
-    alphabet = ['#', '!', 'a', '/', ' ', '\n', '\r', '\u00e9', '\u20ac', '\U0001f600', '\t', '\x0c', '\x00', '.']
+    alphabet = ['#', '!', 'a', '/', ' ', '\n', '\r', '\u00e9', '\u20ac', '\U0001f600', '\t', '\x0c', '\x00', '.', '\x0b', '\x1c', '\x1d', '\x1e', '\x85', '\u2028', '\u2029']
     strs = ['', '#', '#!', '#!\n', '#!\r', '#!\r\n', '#!a\rb\nc', 'a#!b', ' #!x', '#!x#!y\n#!z', '#!\u00e9\u20ac\r\nx', '##!', '#!!\n']
     for sb in SHEBANGS:
         for nl in NEWLINES:
